@@ -119,8 +119,12 @@ def candsCast (bs : List Ballot) : List Cand :=
 
 /-- Profile constructor semantics: duplicate candidate list is rejected; an empty candidate list
 is replaced by the cast candidates. -/
+def hasDup : List Cand → Bool
+  | [] => false
+  | x :: xs => xs.contains x || hasDup xs
+
 def mkProfile (bs : List Ballot) (cands : List Cand) : Outcome Profile :=
-  if cands.eraseDups.length ≠ cands.length then .raised .valueError
+  if hasDup cands then .raised .valueError
   else if cands.isEmpty then .ok { ballots := bs, cands := candsCast bs }
   else .ok { ballots := bs, cands := cands }
 
